@@ -38,9 +38,16 @@ Inductive msg :=
 | MBitfield (len : N)       (* metadata connection only: BITFIELD header, len bytes to discard *)
 | MBitsDone.
 
-Inductive reason := RLen | RUnknownId | RPieceRole | RPieceShort | RExtBad | RFull | RHandler.
+Inductive reason := RLen | RUnknownId | RPieceRole | RPieceShort | RExtBad | RFull | RHandler | REof.
 Inductive effect := EMsg (m : msg) | EClose (r : reason) | EFatal.
 Inductive verdict := VCont | VClose | VFatal.
+
+(* what can happen to a connection between two of its event_read calls *)
+Inductive event :=
+| ESeg (l : list N)   (* a TCP segment arrives *)
+| EPause             (* reads stop: throttle quota 0 (down_chunk / down_chunk_skip remove_read) *)
+| EResume            (* the throttle hands out quota again: insert_read *)
+| EEof.              (* the remote end closes: the next recv on an empty socket throws close_connection *)
 
 (* ---- buffer reads: every access goes through rd; None = outside the unread range -------- *)
 Definition rd (l : list N) (k : nat) : option N := nth_error l k.
@@ -384,6 +391,44 @@ Definition run (h : HS) (pre : list N) (segs : list (list N)) : mres :=
   | x => x
   end.
 
+(* ---- events: segments, read pauses (quota 0), remote close ------------------------------- *)
+(* read_stream_throws on EOF: close_connection -> that connection is erased, nothing else *)
+Definition close_eof (s : mst) : mst * list effect :=
+  match m_mode s with
+  | RClosed => (s, [])
+  | _ => (mk_mst (m_h s) RClosed [] (m_cnt s), [EClose REof])
+  end.
+
+(* sock = bytes that arrived while reads were paused.  A pause only delays: the bytes wait in the
+   socket.  EOF is seen after everything that arrived before it has been read. *)
+Fixpoint runE (s : mst) (sock : list N) (paused : bool) (evs : list event) : mres :=
+  match evs with
+  | [] => MRet s sock []
+  | ESeg l :: r =>
+    if paused then runE s (sock ++ l) true r
+    else match drain (drain_fuel (sock ++ l)) s (sock ++ l) with
+         | MRet s1 a1 es1 => mapp es1 (runE s1 a1 false r)
+         | x => x
+         end
+  | EPause :: r => runE s sock true r
+  | EResume :: r =>
+    match drain (drain_fuel sock) s sock with
+    | MRet s1 a1 es1 => mapp es1 (runE s1 a1 false r)
+    | x => x
+    end
+  | EEof :: _ =>
+    match drain (drain_fuel sock) s sock with
+    | MRet s1 _ es1 => let (s2, e2) := close_eof s1 in MRet s2 [] (es1 ++ e2)
+    | x => x
+    end
+  end.
+
+Definition run_events (h : HS) (pre : list N) (evs : list event) : mres :=
+  match handover h pre [] with
+  | MRet s0 _ es0 => mapp es0 (runE s0 [] false evs)
+  | x => x
+  end.
+
 (* ---- PeerConnectionMetadata::event_read ---------------------------------------------------- *)
 (* IDLE: fill to 512 (no return on a 0-byte read), parse, loop if the buffer was filled to 512
    or the parse left the IDLE state (commit 37af099; before it only the first condition, so a
@@ -459,7 +504,8 @@ Fixpoint ev_meta (fuel : nat) (s : mst) (avail : list N) : mres :=
     end
   end.
 
-Definition evm_fuel (avail : list N) : nat := S (S (S (S (2 * length avail)))).
+(* every loop iteration strictly decreases 2 * (socket + buffer) + [mode is a payload mode] *)
+Definition evm_fuel (s : mst) (avail : list N) : nat := S (S (2 * (length avail + length (m_buf s)))).
 
 Fixpoint drain_meta (fuel : nat) (s : mst) (avail : list N) : mres :=
   match fuel with
@@ -471,10 +517,13 @@ Fixpoint drain_meta (fuel : nat) (s : mst) (avail : list N) : mres :=
       match m_mode s with
       | RClosed => MRet s [] []
       | _ =>
-        match ev_meta (evm_fuel avail) s avail with
+        match ev_meta (evm_fuel s avail) s avail with
         | MRet s1 a1 es1 =>
           if (length a1 <? length avail)%nat then mapp es1 (drain_meta f s1 a1)
-          else MOut               (* no progress on the socket: not reachable *)
+          else match m_mode s1 with
+               | RClosed => MRet s1 [] es1     (* closed by what was still buffered *)
+               | _ => MOut                    (* no progress on the socket: not reachable *)
+               end
         | x => x
         end
       end
@@ -494,7 +543,7 @@ Fixpoint run_segs_meta (s : mst) (segs : list (list N)) : mres :=
 Definition run_meta (h : HS) (pre : list N) (segs : list (list N)) : mres :=
   match (match pre with
          | [] => MRet (mk_mst h RIdle [] 0) [] []
-         | _ :: _ => ev_meta (evm_fuel []) (mk_mst h RIdle pre 0) []
+         | _ :: _ => ev_meta (evm_fuel (mk_mst h RIdle pre 0) []) (mk_mst h RIdle pre 0) []
          end) with
   | MRet s0 _ es0 => mapp es0 (run_segs_meta s0 segs)
   | x => x
